@@ -357,8 +357,8 @@ func historySteps(family string, n int, seed uint64) []encStep {
 		}
 		steps[i] = encStep{Key: classes[k], KSeed: ks, Pw: pw, PSeed: gen.Mix(seed, 0x9a55, uint64(i))}
 	}
-	if n == 4 && !hasPrefix(family, "sm9-") { // the last step reuses the first password with another key
-		steps[3].Pw, steps[3].PSeed = steps[0].Pw, steps[0].PSeed
+	if n >= 4 && !hasPrefix(family, "sm9-") { // the last step reuses the first password with another key
+		steps[n-1].Pw, steps[n-1].PSeed = steps[0].Pw, steps[0].PSeed
 	}
 	return steps
 }
@@ -371,10 +371,10 @@ func TestC14_HistoryEncode(t *testing.T) {
 		next := func(c encHistCase) {
 			i++
 			c.Seed = gen.Mix(h.Seed, 0x4157, uint64(i))
-			c.Steps = historySteps(c.Family, 2+i%3, c.Seed)
+			c.Steps = historySteps(c.Family, 2+i%h.Scale(3, 5), c.Seed) // thorough: histories of up to 6 encodings
 			emit(c)
 		}
-		rounds := h.Scale(1, 4)
+		rounds := h.Scale(1, 12)
 		for round := 0; round < rounds; round++ {
 			for _, ce := range pbes2Ciphers {
 				for _, kdf := range kdfNames {
@@ -499,7 +499,7 @@ func classOfPattern(p string) string {
 }
 
 var (
-	decPatternsSecret = []string{"aRbR", "RR", "cdR", "RaR", "bRRd", "dcbaR"}
+	decPatternsSecret = []string{"aRbR", "RR", "cdR", "RaR", "bRRd", "dcbaR", "aRbRcRdR", "RRRRRR", "abcdabcdR", "RaRbRcRd"} // the last four: thorough only
 	decPatternsPlain  = []string{"RR", "RRR"}
 )
 
@@ -511,10 +511,13 @@ func TestC14_HistoryDecode(t *testing.T) {
 	h.Sweep(t, h.P{Name: "history-decode-repeat"}, func(emit func(decHistCase)) {
 		i := 0
 		withSecret := func(s cspec) {
-			n := h.Scale(2, len(decPatternsSecret))
+			n, np := 2, 6
+			if h.Thorough() {
+				n, np = len(decPatternsSecret), len(decPatternsSecret)
+			}
 			for k := 0; k < n; k++ {
 				i++
-				emit(decHistCase{s, decPatternsSecret[(i+k)%len(decPatternsSecret)]})
+				emit(decHistCase{s, decPatternsSecret[(i+k)%np]})
 			}
 		}
 		for _, ce := range pbes2Ciphers {
